@@ -12,7 +12,7 @@ import ast
 
 from ..flow import FlowAnalysis, has_event, may_event
 from ..model import AnalysisError, FuncInfo, call_name, last_attr, names_in, unparse, walk_no_nested
-from ..sites import pipeline_applies, site_writes
+from ..sites import pipeline_applies, site_writes, apply_fn, worker_fn
 
 # calls whose success depends on the content / existence of the target file
 INPUT_DEP_ATTRS = {"read_bytes", "read_text", "decode", "parse_module", "transform", "parse", "readlines", "read", "splitlines"}
@@ -224,7 +224,7 @@ def rule_worker_no_raise(ctx, rep):
         "executor.map and aborts the run (e.g. a file vanishing mid-run)",
         min_instances=1,
     )
-    fn = ctx.prog.func("codemodder.codemods.base_codemod.BaseCodemod._process_file")
+    fn = worker_fn(ctx)
     bad = []
     for c in walk_no_nested(fn.node):
         if isinstance(c, ast.Call):
